@@ -21,7 +21,7 @@ use crate::graphs::{self, Desc};
 use crate::rng::Rng;
 use crate::value::V;
 use graaf::{
-    AddArc, AdjacencyList, AdjacencyListWeighted, AdjacencyMap, AdjacencyMatrix, Arcs, ArcsWeighted,
+    AddArc, AddArcWeighted, AdjacencyList, AdjacencyListWeighted, AdjacencyMap, AdjacencyMatrix, Arcs, ArcsWeighted,
     EdgeList, Empty, Order, Vertices,
 };
 use std::collections::{BTreeMap, BTreeSet};
@@ -52,7 +52,58 @@ fn observe_wi(d: &AdjacencyListWeighted<isize>) -> V {
     ])
 }
 
+/// One `==` check with the implementation's own `PartialEq`; a panic inside it is data.
+fn guard(f: impl FnOnce() -> bool) -> V {
+    match catch_unwind(AssertUnwindSafe(f)) {
+        Ok(x) => V::bool(x),
+        Err(_) => V::atom("panic"),
+    }
+}
+
+/// `[rebuilt, round trip through each other unweighted representation]` for an unweighted digraph:
+/// `x == rebuild(x)` (`empty(order)` + `add_arc` over `x.arcs()`) and `x == T::from(S::from(x.clone()))`.
+macro_rules! eq_checks {
+    ($d:expr, $T:ty, $($S:ty),*) => {{
+        let d: &$T = $d;
+        let mut out = vec![guard(|| {
+            let mut h = <$T>::empty(d.order());
+            for (u, v) in d.arcs() {
+                h.add_arc(u, v);
+            }
+            *d == h
+        })];
+        $( out.push(guard(|| *d == <$T>::from(<$S>::from(d.clone())))); )*
+        V::L(out)
+    }};
+}
+
+fn eq_weighted<W: Copy + Eq>(d: &AdjacencyListWeighted<W>) -> V {
+    V::L(vec![guard(|| {
+        let mut h = AdjacencyListWeighted::<W>::empty(d.order());
+        for (u, v, w) in d.arcs_weighted() {
+            h.add_arc_weighted(u, v, *w);
+        }
+        *d == h
+    })])
+}
+
+fn eq_value(per_digraph: Vec<V>) -> V {
+    let mut xs = vec![V::atom("eq")];
+    xs.extend(per_digraph);
+    V::L(xs)
+}
+
 impl Any {
+    fn eq_checks(&self) -> V {
+        match self {
+            Any::Al(d) => eq_checks!(d, AdjacencyList, AdjacencyMap, AdjacencyMatrix, EdgeList),
+            Any::Am(d) => eq_checks!(d, AdjacencyMap, AdjacencyList, AdjacencyMatrix, EdgeList),
+            Any::Mx(d) => eq_checks!(d, AdjacencyMatrix, AdjacencyList, AdjacencyMap, EdgeList),
+            Any::El(d) => eq_checks!(d, EdgeList, AdjacencyList, AdjacencyMap, AdjacencyMatrix),
+            Any::Wu(d) => eq_weighted(d),
+            Any::Wi(d) => eq_weighted(d),
+        }
+    }
     fn observe(&self) -> V {
         match self {
             Any::Al(d) => graphs::observe(d),
@@ -97,7 +148,22 @@ impl Any {
     }
 }
 
+/// observation + `==` checks of one freshly built digraph (unpacked into two output values by `eval`)
+fn both(a: Any) -> V {
+    V::L(vec![V::atom("pair"), a.observe(), eq_value(vec![a.eq_checks()])])
+}
+
 pub fn eval(op: &str, args: &[V]) -> Option<Vec<V>> {
+    let out = eval_inner(op, args)?;
+    if let [V::L(xs)] = out.as_slice() {
+        if xs.len() == 3 && xs[0] == V::atom("pair") {
+            return Some(vec![xs[1].clone(), xs[2].clone()]);
+        }
+    }
+    Some(out)
+}
+
+fn eval_inner(op: &str, args: &[V]) -> Option<Vec<V>> {
     match op {
         "conv_chain" => {
             let [desc, tags] = args else { return None };
@@ -124,10 +190,12 @@ pub fn eval(op: &str, args: &[V]) -> Option<Vec<V>> {
                 Err(_) => return Some(vec![V::atom("panic")]),
             };
             let mut out = vec![cur.observe()];
+            let mut eqs = vec![cur.eq_checks()];
             for t in &tags {
                 match catch_unwind(AssertUnwindSafe(|| cur.convert(t))) {
                     Ok(Some(next)) => {
                         out.push(next.observe());
+                        eqs.push(next.eq_checks());
                         cur = next;
                     }
                     Ok(None) => return None,
@@ -137,6 +205,7 @@ pub fn eval(op: &str, args: &[V]) -> Option<Vec<V>> {
                     }
                 }
             }
+            out.push(eq_value(eqs));
             Some(out)
         }
         "conv_from_rows" => {
@@ -149,9 +218,9 @@ pub fn eval(op: &str, args: &[V]) -> Option<Vec<V>> {
                         .map(|row| row.as_usizes().map(|xs| xs.into_iter().collect()))
                         .collect::<Option<_>>()?;
                     Some(vec![if r == "al" {
-                        graphs::observe(&AdjacencyList::from(sets))
+                        both(Any::Al(AdjacencyList::from(sets)))
                     } else {
-                        graphs::observe(&AdjacencyMap::from(sets))
+                        both(Any::Am(AdjacencyMap::from(sets)))
                     }])
                 }
                 "wu" => {
@@ -167,7 +236,7 @@ pub fn eval(op: &str, args: &[V]) -> Option<Vec<V>> {
                         }
                         maps.push(m);
                     }
-                    Some(vec![observe_wu(&AdjacencyListWeighted::<usize>::from(maps))])
+                    Some(vec![both(Any::Wu(AdjacencyListWeighted::<usize>::from(maps)))])
                 }
                 "wi" => {
                     let mut maps: Vec<BTreeMap<usize, isize>> = vec![];
@@ -182,7 +251,7 @@ pub fn eval(op: &str, args: &[V]) -> Option<Vec<V>> {
                         }
                         maps.push(m);
                     }
-                    Some(vec![observe_wi(&AdjacencyListWeighted::<isize>::from(maps))])
+                    Some(vec![both(Any::Wi(AdjacencyListWeighted::<isize>::from(maps)))])
                 }
                 _ => None,
             }
@@ -195,8 +264,8 @@ pub fn eval(op: &str, args: &[V]) -> Option<Vec<V>> {
                 return None;
             }
             match repr.as_atom()? {
-                "mx" => Some(vec![graphs::observe(&AdjacencyMatrix::from(arcs))]),
-                "el" => Some(vec![graphs::observe(&EdgeList::from(arcs))]),
+                "mx" => Some(vec![both(Any::Mx(AdjacencyMatrix::from(arcs)))]),
+                "el" => Some(vec![both(Any::El(EdgeList::from(arcs)))]),
                 _ => None,
             }
         }
@@ -225,9 +294,9 @@ pub fn eval(op: &str, args: &[V]) -> Option<Vec<V>> {
                         })
                         .collect::<Option<_>>()?;
                     Some(vec![if r == "al" {
-                        lazy!(sets, |it| graphs::observe(&AdjacencyList::from(it)))
+                        lazy!(sets, |it| both(Any::Al(AdjacencyList::from(it))))
                     } else {
-                        lazy!(sets, |it| graphs::observe(&AdjacencyMap::from(it)))
+                        lazy!(sets, |it| both(Any::Am(AdjacencyMap::from(it))))
                     }])
                 }
                 r @ ("wu" | "wi") => {
@@ -248,13 +317,13 @@ pub fn eval(op: &str, args: &[V]) -> Option<Vec<V>> {
                         maps.push(Some(m));
                     }
                     if r == "wi" {
-                        Some(vec![lazy!(maps, |it| observe_wi(&AdjacencyListWeighted::<isize>::from(it)))])
+                        Some(vec![lazy!(maps, |it| both(Any::Wi(AdjacencyListWeighted::<isize>::from(it))))])
                     } else {
                         let maps: Vec<Option<BTreeMap<usize, usize>>> = maps
                             .into_iter()
                             .map(|m| m.map(|m| m.into_iter().map(|(k, w)| (k, w.unsigned_abs())).collect()))
                             .collect();
-                        Some(vec![lazy!(maps, |it| observe_wu(&AdjacencyListWeighted::<usize>::from(it)))])
+                        Some(vec![lazy!(maps, |it| both(Any::Wu(AdjacencyListWeighted::<usize>::from(it))))])
                     }
                 }
                 _ => None,
@@ -291,8 +360,8 @@ pub fn eval(op: &str, args: &[V]) -> Option<Vec<V>> {
                 };
             }
             match repr.as_atom()? {
-                "mx" => Some(vec![lazy!(|it| graphs::observe(&AdjacencyMatrix::from(it)))]),
-                "el" => Some(vec![lazy!(|it| graphs::observe(&EdgeList::from(it)))]),
+                "mx" => Some(vec![lazy!(|it| both(Any::Mx(AdjacencyMatrix::from(it))))]),
+                "el" => Some(vec![lazy!(|it| both(Any::El(EdgeList::from(it))))]),
                 _ => None,
             }
         }
@@ -627,6 +696,22 @@ pub fn gen(rng: &mut Rng, thorough: bool, emit: &mut dyn FnMut(String)) {
     emit_lazy(rng, if thorough { 4000 } else { 700 }, if thorough { 1500 } else { 300 }, false, emit);
     // (4c) one matrix of order >= 65 536 (cell indices >= 2^32; ~0.7 s, ~535 MB of zero pages)
     emit("conv_mx_big 66000 [[65999 0] [65999 65998] [65076 1] [65075 65999] [0 1] [70 65999] [33000 33001]] el".to_string());
+    // (4d) From<arcs> at orders around the multiples of 8 and 64 (order^2 a multiple of 64: block-count
+    //      boundary of the bit matrix); the `==` checks see a non-canonical block vector
+    for order in [2usize, 3, 7, 8, 9, 15, 16, 17, 24, 32, 40, 48, 56, 63, 64, 65, 72, 96, 128, 136, 192, 200] {
+        for repr in ["mx", "el"] {
+            let mut arcs: Vec<(usize, usize)> = vec![(rng.below(order - 1), order - 1)];
+            for _ in 0..(1 + rng.below(6)) {
+                let u = rng.below(order);
+                let v = (u + 1 + rng.below(order - 1)) % order;
+                arcs.push((u, v));
+            }
+            rng.shuffle(&mut arcs);
+            emit(format!("conv_from_arcs {repr} {}", V::pairs(arcs.iter().copied())));
+            let items: Vec<String> = arcs.iter().map(|(u, v)| format!("[{u} {v}]")).collect();
+            emit(format!("conv_from_arcs_lazy {repr} filter [none {}]", items.join(" none ")));
+        }
+    }
     // (5) From<arcs>
     for _ in 0..(if thorough { 10000 } else { 1600 }) {
         let repr = if rng.chance(1, 2) { "mx" } else { "el" };
